@@ -485,7 +485,7 @@ std::optional<reason_code> to_reason_code(uint8_t code) {
     auto [ptr, len] = reason_codes::detail::valid_codes<cat>();
     auto it = std::lower_bound(ptr, ptr + len, reason_code(code));
 
-    if (it->value() == code)
+    if (it != ptr + len && it->value() == code)
         return *it;
     return std::nullopt;
 }
